@@ -19,6 +19,8 @@ class Sym:
 
     def val(self, node, env):
         u = ast.unparse(node)
+        if u in ("list(copyable.CopyableRegistry.keys())", "copyable.CopyableRegistry.keys()", "list(copyable.CopyableRegistry)"):
+            return "REGKEYS"       # the registered Copyable names; only ever consumed by max(len(.)) over them
         if u == "size":
             return "size"
         if u == "self.maxIndexLength":
@@ -31,6 +33,19 @@ class Sym:
             return "(Z.max %s %s)" % (self.val(node.args[0], env), self.val(node.args[1], env))
         if u == "len(cname)":
             return "longest"       # inside `for cname in <registry keys>`: the fold over all names gives the maximum
+        # max([X] + [len(c) for c in <registry keys>])  /  max([len(c) for c in <registry keys>] + [X])
+        if isinstance(node, ast.Call) and ast.unparse(node.func) == "max" and len(node.args) == 1 and isinstance(node.args[0], ast.BinOp) \
+                and isinstance(node.args[0].op, ast.Add):
+            parts = [node.args[0].left, node.args[0].right]
+            comp = [p_ for p_ in parts if isinstance(p_, ast.ListComp)]
+            lit = [p_ for p_ in parts if isinstance(p_, ast.List) and len(p_.elts) == 1]
+            if len(comp) == 1 and len(lit) == 1:
+                c = comp[0]
+                if (len(c.generators) == 1 and not c.generators[0].ifs and isinstance(c.generators[0].target, ast.Name)
+                        and (ast.unparse(c.generators[0].iter) in ("list(copyable.CopyableRegistry.keys())", "copyable.CopyableRegistry.keys()", "copyable.CopyableRegistry")
+                             or (isinstance(c.generators[0].iter, ast.Name) and env.get(c.generators[0].iter.id) == "REGKEYS"))
+                        and ast.unparse(c.elt) == "len(%s)" % c.generators[0].target.id):
+                    return "(Z.max %s longest)" % self.val(lit[0].elts[0], env)
         if isinstance(node, ast.Constant) and isinstance(node.value, int):
             return "%d" % node.value
         raise P.Untranslatable("%s: value %s" % (self.fname, u))
@@ -41,6 +56,10 @@ class Sym:
             return "(ty =? tok_STRING)"
         if u == "typebyte == tokens.VOCAB":
             return "(ty =? tok_VOCAB)"
+        if u == "typebyte != tokens.STRING":
+            return "(negb (ty =? tok_STRING))"
+        if u == "typebyte != tokens.VOCAB":
+            return "(negb (ty =? tok_VOCAB))"
         if u == "len(opentype) == 0":
             return "(Nat.eqb (List.length ot) 0)"
         if u in ("tuple(opentype) == ('copyable',)", "list(opentype) == ['copyable']", "opentype == ['copyable']"):
@@ -79,7 +98,8 @@ class Sym:
             env2 = dict(env)
             env2[nm] = self.val(s.value, env)
             return self.run(rest, env2)
-        if isinstance(s, ast.For) and ast.unparse(s.iter) == "list(copyable.CopyableRegistry.keys())" and ast.unparse(s.target) == "cname" \
+        if isinstance(s, ast.For) and (ast.unparse(s.iter) == "list(copyable.CopyableRegistry.keys())"
+                                       or (isinstance(s.iter, ast.Name) and env.get(s.iter.id) == "REGKEYS")) and ast.unparse(s.target) == "cname" \
                 and len(s.body) == 1 and not s.orelse and isinstance(s.body[0], ast.Assign) and isinstance(s.body[0].targets[0], ast.Name):
             # for cname in <all registered names>: v = max(v, len(cname))   ==>   v = max(v, longest)
             b = s.body[0]
